@@ -1283,7 +1283,9 @@ theorem named_notinfile_meets (cmd : Cmd) (pkg : Pkg) (fl : Flags) (hgo : ∀ f 
 theorem region_wf_cases {cmd : Cmd} {pkg : Pkg} {fl : Flags} (h : region cmd pkg fl = .WF) :
     (validPkg pkg = true ∧ regionValid cmd pkg fl = .WF) ∨
     (validPkg pkg = false ∧ (∀ f ∈ pkg, endsGo f.name = true) ∧ namedNotInFile pkg fl = true) ∨
-    (validPkg pkg = false ∧ cmd = .new ∧ validPkgL pkg = true ∧ regionValid .new (stripNew pkg) fl = .WF) := by
+    (validPkg pkg = false ∧ cmd = .new ∧ validPkgL pkg = true ∧ regionValid .new (stripNew pkg) fl = .WF) ∨
+    (validPkg pkg = false ∧ (∀ f ∈ pkg, localsHarmless cmd f.decls = true) ∧ validPkg (stripLoc pkg) = true ∧
+      regionValid cmd (stripLoc pkg) fl = .WF) := by
   unfold region at h
   cases hv : validPkg pkg with
   | true => left; simpa [hv] using h
@@ -1297,13 +1299,18 @@ theorem region_wf_cases {cmd : Cmd} {pkg : Pkg} {fl : Flags} (h : region cmd pkg
       by_cases hn : (cmd == .new && validPkgL pkg) = true
       · simp only [hn, ↓reduceIte] at h
         simp only [Bool.and_eq_true, beq_iff_eq] at hn
-        exact Or.inr ⟨rfl, hn.1, hn.2, h⟩
+        exact Or.inr (Or.inl ⟨rfl, hn.1, hn.2, h⟩)
       · simp only [hn, Bool.false_eq_true, ↓reduceIte] at h
-        split at h
-        · split at h
-          · split at h <;> cases h
+        by_cases hl : (pkg.all (fun f => localsHarmless cmd f.decls) && validPkg (stripLoc pkg)) = true
+        · simp only [hl, ↓reduceIte] at h
+          simp only [Bool.and_eq_true, List.all_eq_true] at hl
+          exact Or.inr (Or.inr ⟨rfl, hl.1, hl.2, h⟩)
+        · simp only [hl, Bool.false_eq_true, ↓reduceIte] at h
+          split at h
+          · split at h
+            · split at h <;> cases h
+            · cases h
           · cases h
-        · cases h
 
 /-- on a valid package, in a selection form the property talks about and outside the finding regions, the model meets the specification -/
 theorem valid_meets (cmd : Cmd) (pkg : Pkg) (fl : Flags) (hv : validPkg pkg = true) (h : regionValid cmd pkg fl = .WF) :
